@@ -2,6 +2,7 @@ import GrVerif.Proofs.Loader
 import GrVerif.Proofs.PassLoad
 import GrVerif.Proofs.LoadedPass
 import GrVerif.Proofs.ClassMap
+import GrVerif.Proofs.SilfLoad
 import GrVerif.Props.C13
 import GrVerif.Props.C14
 /-!
@@ -98,14 +99,49 @@ theorem class_lookups_in_bounds (m : ClassMap) (h : ClassMapOK m) (cid x : Nat) 
 outside `m_classOffsets` – which is why the code loader has to refuse it (`valid_upto(m_nClass, cid)`; seeded change C02-m1) -/
 example : getClassGlyph { nClass := 1, nLinear := 1, offsets := [0, 1], data := [7] } 1 0 = .error (.read "m_classOffsets") := by decide
 
+/-- **`Silf::readGraphite` – one Silf sub-table – is total and in bounds** for every byte string, table version and glyph-cache
+numbers; an accepted sub-table has its pass numbers in order (`sPass ≤ pPass ≤ jPass ≤ numPasses ≤ 128`), the attribute numbers
+below the font's attribute count, a well-formed class map (`ClassMapOK`, the hypothesis of `class_lookups_in_bounds`), and for
+each pass a byte range behind `passes_start` and inside the sub-table whose layout `readPass` places inside that range -/
+theorem silf_subtable_total (b : List Nat) (version numGlyphs numAttrs : Nat) (hasBoxes : Bool) :
+    ∃ r, readSilf b version numGlyphs numAttrs hasBoxes = .ok r ∧ ∀ t, r = .ok t → SilfOK b version numAttrs t :=
+  readSilf_total b version numGlyphs numAttrs hasBoxes
+
+/-- **the sub-table offsets of the Silf table are read inside the table although their number is never tested against its size**
+(`Face::readGraphite` tests only `size ≥ 20`): the loop reaches entry `i + 1` only after `i + 1` sub-tables were accepted one
+behind the other, each longer than 20 bytes, so the table is by then known to extend beyond that entry -/
+theorem silf_subtable_offsets_in_bounds (b : List Nat) (version numGlyphs numAttrs : Nat) (hasBoxes : Bool) (numSilf : Nat) (hl : 20 ≤ b.length) :
+    ∃ r, readSilfSubs b version numGlyphs numAttrs hasBoxes (if version ≥ 0x00030000 then 12 else 8) numSilf 0 = .ok r ∧
+      ∀ l, r = .ok l → l.length = numSilf :=
+  readSilfSubs_total b version numGlyphs numAttrs hasBoxes _ rfl numSilf 0 (by split <;> omega) (fun v _ => by omega)
+
+/-- **`Face::readGraphite` is total and in bounds for every byte string given as the Silf table** -/
+theorem silf_table_total (b : List Nat) (numGlyphs numAttrs : Nat) (hasBoxes : Bool) :
+    ∃ r, readSilfTable b numGlyphs numAttrs hasBoxes = .ok r :=
+  readSilfTable_total b numGlyphs numAttrs hasBoxes
+
 /-! ### non-vacuity -/
+/-- the second pass of `tests/fonts/small.ttf` (119 bytes at offset 215 of its Silf sub-table) is accepted -/
+def smallPass : List Nat := [0, 5, 2, 0, 0, 1, 0, 0, 0, 0, 1, 44, 0, 0, 1, 44, 0, 0, 1, 45, 0, 0, 0, 0, 0, 3, 0, 2, 0, 1, 0, 2, 0, 2, 0, 2, 0, 1, 0, 0, 0, 3, 0, 3, 0, 0, 0, 5, 0, 5, 0, 1, 0, 0, 0, 1, 0, 0, 0, 0, 0, 0, 0, 2, 0, 10, 0, 0, 0, 0, 0, 1, 0, 0, 0, 33, 0, 1, 0, 0, 0, 0, 0, 2, 0, 0, 27, 30, 0, 1, 255, 38, 2, 1, 0, 35, 17, 41, 6, 0, 35, 8, 41, 7, 0, 35, 9, 44, 6, 0, 35, 3, 44, 7, 0, 35, 4, 25, 49]
+/-- the Silf table of `tests/fonts/small.ttf`: its one sub-table (offset 12) followed by `smallPass` -/
+def smallSilf : List Nat := [0, 2, 0, 0, 0, 1, 0, 0, 0, 0, 0, 12, 0, 7, 0, 0, 0, 0, 2, 0, 1, 1, 255, 4, 0, 0, 0, 2, 3, 4, 1, 0, 0, 0, 0, 0, 1, 0, 0, 0, 0, 0, 0, 0, 0, 6, 0, 0, 0, 68, 0, 0, 0, 215, 0, 0, 1, 78, 0, 0, 0, 0, 0, 0, 0, 0, 0, 2, 0, 2, 0, 10, 0, 12, 0, 14, 0, 5, 0, 3, 0, 5, 3, 0, 0, 2, 0, 0, 0, 0, 0, 200, 0, 0, 0, 200, 0, 0, 0, 201, 0, 0, 0, 0, 0, 6, 0, 5, 0, 2, 0, 3, 0, 4, 0, 4, 0, 2, 0, 0, 0, 0, 0, 2, 0, 0, 0, 3, 0, 3, 0, 1, 0, 4, 0, 4, 0, 2, 0, 5, 0, 7, 0, 0, 0, 0, 0, 1, 0, 2, 0, 1, 0, 0, 0, 1, 0, 0, 0, 1, 0, 2, 0, 2, 0, 1, 0, 0, 0, 0, 0, 0, 0, 0, 1, 0, 0, 0, 10, 0, 14, 0, 1, 0, 1, 0, 2, 0, 0, 0, 3, 0, 0, 0, 0, 0, 4, 0, 0, 0, 0, 0, 0, 0, 5, 0, 0, 0, 0, 0, 5, 0, 0, 28, 0, 33, 2, 0, 1, 25, 32, 25, 49, 28, 0, 25, 49] ++ smallPass
+/-- it is accepted (8 glyphs, 8 glyph attributes): two passes, a substitution pass at [68, 215) and a pass at [215, 334) of the
+sub-table that counts as a justification pass (`jPass = pPass = 1`), the class map at 54, two linear classes -/
+def silfSummary (r : Except Loader.Fault (Except SilfErr (List SilfTable))) : List (List Nat) :=
+  match r with
+  | .ok (.ok ts) => ts.map fun t => [t.fixed.numPasses, t.mid.passesStart, t.classAt, t.classes.nClass] ++ t.passes.flatMap fun s => [s.start, s.stop, s.pt]
+  | _ => []
+example : silfSummary (readSilfTable smallSilf 8 8 false) = [[2, 68, 54, 2, 68, 215, 1, 215, 334, 3]] := by decide +kernel
+/-- cut short by one byte it is refused: the last pass would end outside the table -/
+example : readSilfTable (smallSilf.take 345) 8 8 false = .ok (.error (.pass 1 Gen.Err.E_BADPASSEND)) := by decide +kernel
+/-- and a font with fewer glyph attributes than the table names is refused -/
+example : readSilfTable smallSilf 8 3 false = .ok (.error (.silf Gen.Err.E_BADABIDI)) := by decide +kernel
+
 /-- a class map with one linear class {5, 9} and one look-up class {3 ↦ 0, 8 ↦ 1} (16-bit offsets) -/
 def exMap : List Nat := [0, 2, 0, 1, 0, 10, 0, 14, 0, 30, 0, 5, 0, 9, 0, 2, 0, 2, 0, 1, 0, 0, 0, 3, 0, 0, 0, 8, 0, 1]
 example : (match readClassMap exMap false with | .ok (.ok m) => (m.nClass, m.nLinear, m.offsets, getClassGlyph m 0 1, findClassIndex m 1 8, findClassIndex m 1 4) | _ => (0, 0, [], .ok 0, .ok 0, .ok 0)) =
     (2, 1, [0, 2, 10], .ok 9, .ok 1, .ok 0xFFFF) := by decide +kernel
 
-/-- the second pass of `tests/fonts/small.ttf` (119 bytes at offset 215 of its Silf sub-table) is accepted -/
-def smallPass : List Nat := [0, 5, 2, 0, 0, 1, 0, 0, 0, 0, 1, 44, 0, 0, 1, 44, 0, 0, 1, 45, 0, 0, 0, 0, 0, 3, 0, 2, 0, 1, 0, 2, 0, 2, 0, 2, 0, 1, 0, 0, 0, 3, 0, 3, 0, 0, 0, 5, 0, 5, 0, 1, 0, 0, 0, 1, 0, 0, 0, 0, 0, 0, 0, 2, 0, 10, 0, 0, 0, 0, 0, 1, 0, 0, 0, 33, 0, 1, 0, 0, 0, 0, 0, 2, 0, 0, 27, 30, 0, 1, 255, 38, 2, 1, 0, 35, 17, 41, 6, 0, 35, 8, 41, 7, 0, 35, 9, 44, 6, 0, 35, 3, 44, 7, 0, 35, 4, 25, 49]
 example : (match readPassLayout smallPass 215 false with | .ok (.ok L) => (L.hdr.numRules, L.hdr.numStates, L.arr.numGlyphs, L.codes.endp) | _ => (0, 0, 0, 0)) = (1, 3, 6, 119) := by decide +kernel
 /-- cut short, the same pass is refused (the walk would run off the end) -/
 example : (match readPassLayout (smallPass.take 100) 215 false with | .ok (.error e) => e | _ => 0) = Gen.Err.E_BADPASSLENGTH := by decide +kernel
